@@ -418,7 +418,7 @@ class G:
     def st_for(self, env, indent, depth):
         r = self.rng
         names = sorted(n for n in self.tensors(env) if n not in self.readonly)
-        carried = [r.choice(names) for _ in range(r.choice([1, 1, 2, 3]))]
+        carried = [r.choice(names) for _ in range(r.choice([1, 2, 3, 3, 4, 5]))]
         carried = list(dict.fromkeys(carried))
         i = self.fresh("i")
         bform = r.choice(["lit", "lit", "attr", "tensor"])
@@ -457,7 +457,7 @@ class G:
                 body += self.st_assign_like(e2, indent + 1, target=self.fresh("q"))
             except Bail:
                 pass
-        if depth < self.depth_limit and r.random() < 0.3:
+        if depth < self.depth_limit and r.random() < 0.5:
             body += self.block(e2, indent + 1, depth + 1, 1, allow_loops=False)
             self.feat.add("nested_control_flow")
         if r.random() < 0.35:
@@ -474,7 +474,7 @@ class G:
     def st_while(self, env, indent, depth):
         r = self.rng
         names = sorted(n for n in self.tensors(env) if n not in self.readonly)
-        carried = list(dict.fromkeys(r.choice(names) for _ in range(r.choice([1, 2]))))
+        carried = list(dict.fromkeys(r.choice(names) for _ in range(r.choice([1, 2, 3, 4]))))
         cnt, cond = self.fresh("cnt"), self.fresh("go")
         limit = r.choice([0, 1, 2, 3])
         self.readonly.update([cnt, cond])
